@@ -59,4 +59,14 @@ CLAIMS.update({
          "From<E>, From<&E>, discriminant(), `as R` of both enums, size_of, compile-time uses of each requested derive, Display of a passed-through strum(serialize).",
          "DESIGN.md §6 C09", "Partial: that an arbitrary pass-through attribute takes effect is observed only for the attribute kinds the corpus uses (derive of std traits and of strum derives, doc, strum(serialize) on variants)."),
 })
+CLAIMS.update({
+ 'C14': ("Lean 4 proof: four getters = declarative functions, incl. soundness of the macro's arm-counting wildcard rule (exhaustiveness); correspondence with compiled derives",
+         "lean/StrumProofs/C14.lean: evalArms_spec (the generated match always compiles and returns the variant's own arm), message_spec, detailed_spec, doc_spec, ser_spec. "
+         "Correspondence: five enum modes (mixed, every variant has a message = no wildcard, none, all documented, all detailed) x kinds x generics x 0..4 doc lines with varied leading whitespace and special characters x naming x 17 styles x disabled.",
+         "DESIGN.md §6 C14", "EnumMessage on an empty enum does not compile (`match self {}` on a reference) and has no value to call the methods on; excluded."),
+ 'C15': ("Lean 4 proof: getter = first declared (key, type) entry of the variant, None otherwise; iff under per-variant key uniqueness; correspondence with compiled derives",
+         "lean/StrumProofs/C15.lean: get_spec, get_type, get_iff, int_unchanged. Correspondence: 0..6 properties per variant over 1..3 props(..) groups, keys shared across variants and types, keyword keys, "
+         "i64::MIN / MAX / negative integers, disabled variants; every key declared anywhere in the enum plus case / prefix / whitespace / r# variations and random strings through all three getters.",
+         "DESIGN.md §6 C15", "The merge of several props(..) groups happens in syn-level attribute collection (variant_props.rs:155-157), exercised by every corpus item with more than one group; the model starts from the merged list."),
+})
 NOT_CLAIMED = {}
